@@ -214,6 +214,23 @@ def run(ctx):
         else:
             t = rng.choice([0.0, 0.01, 0.05, 0.1, 0.25, 0.5, 1.0, 2.0])
         one(ctx, pts, K, E, t, fam + ':' + mode)
+    long_cases(ctx)
+
+
+def long_cases(ctx):
+    """LONG curves (beyond 1024 / 4096 points) with hundreds of knees and expected points"""
+    rng = ctx.rng
+    for _ in range(2 if ctx.tier == 'quick' else 20):
+        n = rng.choice([rng.randrange(1100, 1600), rng.randrange(4097, 4400)])
+        xs = np.cumsum([rng.choice([1, 1, 2, 3]) for _ in range(n)]).astype(float)
+        ys = np.round(4096.0 * np.exp(-0.002 * np.arange(n))) / 4096.0 + np.array([rng.randrange(0, 8) / 64.0 for _ in range(n)])
+        pts = np.column_stack([xs, ys])
+        K = sorted(rng.sample(range(n), rng.randrange(80, 200)))
+        idx = sorted(rng.sample(range(n), rng.randrange(40, 120)))
+        E = pts[idx].copy()
+        if rng.random() < 0.5:
+            E = pts[K].copy()
+        one(ctx, pts, K, E, rng.choice([0.0, 0.001, 0.01]), 'long-trace', False)
 
 
 def replay(ctx, body):
